@@ -34,6 +34,31 @@ Definition opt_eqb (a b : option N) : bool :=
 Definition below_kept (x : nat) (kept : option nat) : bool :=
   match kept with Some k => x <? k | None => false end.
 
+(** what one iteration of [for index in 0..max_len] decides when [from_item != to_item] *)
+Definition it_rem (from to : list N) (index : nat) : bool :=
+  match nth_error from index with Some f => negb (memN f to) | None => false end.
+Definition it_add (from to : list N) (index : nat) : bool :=
+  match nth_error to index with Some t => negb (memN t from) | None => false end.
+(** [na] / [nr] = [added.len()] / [removed.len()] after this iteration's pushes *)
+Definition it_move (from to : list N) (index na nr : nat) (kept : option nat) : option mv :=
+  match nth_error from index with
+  | Some f =>
+      match index_of f to with
+      | Some t =>
+          let move_in_dom :=
+            negb (Z.eqb (Z.of_nat t - Z.of_nat index) (Z.of_nat na - Z.of_nat nr))
+            || below_kept t kept in
+          Some {| m_from := index; m_len := 1; m_to := t; m_dom := move_in_dom |}
+      | None => None
+      end
+  | None => None
+  end.
+Definition it_kept (mvop : option mv) (kept : option nat) : option nat :=
+  match mvop with
+  | Some m => if m_dom m then kept else Some (m_to m)
+  | None => kept
+  end.
+
 (** The body of [for index in 0..max_len]: [n] iterations are left, [na] / [nr] are
     [added.len()] / [removed.len()] so far, [kept] is [last_kept].  Returns what the
     remaining iterations push onto (removed, moved, added). *)
@@ -42,37 +67,18 @@ Fixpoint diff_loop (from to : list N) (n index na nr : nat) (kept : option nat)
   match n with
   | 0 => ([], [], [])
   | S n' =>
-      let fi := nth_error from index in
-      let ti := nth_error to index in
-      if opt_eqb fi ti then
+      if opt_eqb (nth_error from index) (nth_error to index) then
         if below_kept index kept then
           let '(r, m, a) := diff_loop from to n' (S index) na nr kept in
           (r, {| m_from := index; m_len := 1; m_to := index; m_dom := true |} :: m, a)
         else diff_loop from to n' (S index) na nr (Some index)
       else
-        let rem := match fi with Some f => negb (memN f to) | None => false end in
-        let add := match ti with Some t => negb (memN t from) | None => false end in
+        let rem := it_rem from to index in
+        let add := it_add from to index in
         let nr' := if rem then S nr else nr in
         let na' := if add then S na else na in
-        let mvop :=
-          match fi with
-          | Some f =>
-              match index_of f to with
-              | Some t =>
-                  let move_in_dom :=
-                    negb (Z.eqb (Z.of_nat t - Z.of_nat index) (Z.of_nat na' - Z.of_nat nr'))
-                    || below_kept t kept in
-                  Some {| m_from := index; m_len := 1; m_to := t; m_dom := move_in_dom |}
-              | None => None
-              end
-          | None => None
-          end in
-        let kept' :=
-          match mvop with
-          | Some m => if m_dom m then kept else Some (m_to m)
-          | None => kept
-          end in
-        let '(r, m, a) := diff_loop from to n' (S index) na' nr' kept' in
+        let mvop := it_move from to index na' nr' kept in
+        let '(r, m, a) := diff_loop from to n' (S index) na' nr' (it_kept mvop kept) in
         ((if rem then index :: r else r),
          (match mvop with Some x => x :: m | None => m end),
          (if add then {| a_at := index; a_mode := Normal |} :: a else a))
